@@ -174,3 +174,191 @@ theorem dial_oversize (lazy : Bool) (isDone : DSt → Bool) (s : DSt) (input : B
       simp [runBytes, hdone]
 
 end C15
+
+namespace C15
+open Mss
+
+theorem runToEof_of_done {σ : Type} (step : σ → RdEv → σ × List Msg) (isDone : σ → Bool)
+    (s : σ) (input : Bytes) (h : isDone s = true) :
+    runToEof step isDone s input = (s, [], input) := by
+  unfold runToEof
+  simp [runBytes, h]
+
+theorem dStep_eof_done (lazy : Bool) (s : DSt) (r : Bytes) :
+    dDone (dStep lazy s (eofEvent r)).1 = true := by
+  unfold eofEvent
+  cases s with
+  | done x => split <;> simp [dStep, dDone]
+  | await c t => split <;> simp [dStep, dDone]
+  | expecting c x => split <;> simp [dStep, dDone]
+
+theorem runToEof_dDone (lazy : Bool) (s : DSt) (input : Bytes) :
+    dDone (runToEof (dStep lazy) dDone s input).1 = true := by
+  unfold runToEof
+  simp only
+  split
+  · rename_i h; exact h
+  · exact dStep_eof_done lazy _ _
+
+theorem dStep_eof_future (lazy : Bool) (s : DSt) (r : Bytes) :
+    dFutureDone (dStep lazy s (eofEvent r)).1 = true := by
+  have := dStep_eof_done lazy s r
+  cases h : (dStep lazy s (eofEvent r)).1 <;> simp_all [dDone, dFutureDone]
+
+theorem runToEof_dFuture (lazy : Bool) (s : DSt) (input : Bytes) :
+    dFutureDone (runToEof (dStep lazy) dFutureDone s input).1 = true := by
+  unfold runToEof
+  simp only
+  split
+  · rename_i h; exact h
+  · exact dStep_eof_future lazy _ _
+
+/-- `dStart` never succeeds by itself -/
+theorem dStart_not_ok (lazy : Bool) (names : List Bytes) (p : Bytes) :
+    (dStart lazy names).1 ≠ .done (.ok p) := by
+  unfold dStart
+  cases names with
+  | nil => simp
+  | cons d rest =>
+    simp only [dPropose]
+    split
+    · simp
+    · split
+      · simp
+      · split <;> simp
+
+theorem sendable_append {a b : List Msg} (ha : ∀ x ∈ a, sendable x = true)
+    (hb : ∀ x ∈ b, sendable x = true) : ∀ x ∈ a ++ b, sendable x = true := by
+  intro x hx
+  rw [List.mem_append] at hx
+  rcases hx with h | h
+  · exact ha x h
+  · exact hb x h
+
+theorem contains_of_mem (names : List Bytes) (p : Bytes) (h : p ∈ names) : names.contains p = true := by
+  simpa using h
+
+/-- **The Spec of `dial` accepts the model**, for both versions, every list of names, every input. -/
+theorem spec_dial_model (lazy : Bool) (names : List Bytes) (input : Bytes) :
+    specDialRes names input (dialRun lazy names input).1 (dialRun lazy names input).2.1
+      (dialRun lazy names input).2.2 = "ok" := by
+  obtain ⟨g0, w0⟩ := dStart_good names lazy
+  have hnotok := dStart_not_ok lazy names
+  unfold dialRun
+  generalize hs0 : dStart lazy names = r0 at g0 w0 hnotok
+  obtain ⟨s0, sent0⟩ := r0
+  simp only at g0 w0 hnotok ⊢
+  obtain ⟨g1, w1⟩ := runToEof_inv (dStep lazy) dFutureDone (DGood names) (dStep_good names lazy) s0 input g0
+  have hf1 := runToEof_dFuture lazy s0 input
+  -- how an oversized first frame shows up in phase 1
+  have hov1 : oversizeFirst input = true → (∀ r, s0 ≠ .done r) → dFutureDone s0 = false →
+      ∃ e, (runToEof (dStep lazy) dFutureDone s0 input).1 = .done (.perr e) :=
+    fun ho hnd hfd => dial_oversize lazy dFutureDone s0 input ho hfd hnd (by intro r; rfl)
+  have himm : dFutureDone s0 = true → runToEof (dStep lazy) dFutureDone s0 input = (s0, [], input) :=
+    runToEof_of_done _ _ _ _
+  generalize hr1 : runToEof (dStep lazy) dFutureDone s0 input = r1 at g1 w1 hf1 hov1 himm
+  obtain ⟨s1, sent1, rest1⟩ := r1
+  simp only at g1 w1 hf1 hov1 himm ⊢
+  cases s1 with
+  | await c t => simp [dFutureDone] at hf1
+  | expecting c hx =>
+    obtain ⟨g2, w2⟩ := runToEof_inv (dStep lazy) dDone (DGood names) (dStep_good names lazy)
+      (.expecting c hx) rest1 g1
+    have hd2 := runToEof_dDone lazy (.expecting c hx) rest1
+    have hov2 : oversizeFirst rest1 = true →
+        ∃ e, (runToEof (dStep lazy) dDone (.expecting c hx) rest1).1 = .done (.perr e) :=
+      fun ho => dial_oversize lazy dDone _ rest1 ho rfl (by intro r; simp) (by intro r; rfl)
+    -- with an oversized input the lazy exit was taken at once, so phase 2 sees the whole input
+    have hrest : oversizeFirst input = true → rest1 = input := by
+      intro ho
+      cases s0 with
+      | done r =>
+        have := himm rfl
+        simp at this
+      | expecting c' x' =>
+        have := himm rfl
+        simp at this; exact this.2.2
+      | await c' t' =>
+        obtain ⟨e, he⟩ := hov1 ho (by intro r; simp) rfl
+        simp at he
+    generalize hr2 : runToEof (dStep lazy) dDone (.expecting c hx) rest1 = r2 at g2 w2 hd2 hov2
+    obtain ⟨s2, sent2, rest2⟩ := r2
+    simp only at g2 w2 hd2 hov2 ⊢
+    have hwf : wireWellFormed (wireOfAll (sent0 ++ (sent1 ++ sent2))) = true := by
+      simpa [List.append_assoc] using wire_wellformed _ (sendable_append (sendable_append w0 w1) w2)
+    have hc : c ∈ names := g1.1
+    cases s2 with
+    | await c' t' => simp [dDone] at hd2
+    | expecting c' x' => simp [dDone] at hd2
+    | done r =>
+      cases r with
+      | ok p =>
+        have hno : oversizeFirst input = false := by
+          cases ho : oversizeFirst input with
+          | false => rfl
+          | true =>
+            rw [hrest ho] at hov2
+            obtain ⟨e, he⟩ := hov2 ho
+            simp at he
+        simp [specDialRes, nresPanic, hc, g1.2, hno, hwf]
+      | failed =>
+        have hno : oversizeFirst input = false := by
+          cases ho : oversizeFirst input with
+          | false => rfl
+          | true =>
+            rw [hrest ho] at hov2
+            obtain ⟨e, he⟩ := hov2 ho
+            simp at he
+        simp [specDialRes, nresPanic, hc, g1.2, hno, hwf]
+      | perr e => simp [specDialRes, nresPanic, nresErr, hc, g1.2, hwf]
+      | panic w => exact absurd g2 (by simp [DGood])
+  | done r =>
+    have hwf := wire_wellformed _ (sendable_append w0 w1)
+    -- oversized input: either nothing was read (failure at start) or the result is an error
+    have hover : oversizeFirst input = true →
+        (rest1 = input ∨ ∃ e, r = .perr e) := by
+      intro ho
+      cases s0 with
+      | done r' =>
+        have := himm rfl
+        simp at this; exact Or.inl this.2.2
+      | expecting c' x' =>
+        have := himm rfl
+        simp at this
+      | await c' t' =>
+        obtain ⟨e, he⟩ := hov1 ho (by intro r; simp) rfl
+        simp at he
+        exact Or.inr ⟨e, he⟩
+    cases r with
+    | ok p =>
+      have hc : p ∈ names := g1.1
+      have hno : oversizeFirst input = false := by
+        cases ho : oversizeFirst input with
+        | false => rfl
+        | true =>
+          rcases hover ho with h | ⟨e, he⟩
+          · -- nothing read and yet `ok`: the start state itself would have been `ok`
+            cases s0 with
+            | done r' =>
+              have := himm rfl
+              simp at this
+              exact absurd this.1 (hnotok p)
+            | expecting c' x' => have := himm rfl; simp at this
+            | await c' t' =>
+              obtain ⟨e, he⟩ := hov1 ho (by intro r; simp) rfl
+              simp at he
+          · simp at he
+      simp [specDialRes, nresPanic, hc, g1.2, hno, hwf]
+    | failed =>
+      have hcons : oversizeFirst input = true → input.length - rest1.length = 0 := by
+        intro ho
+        rcases hover ho with h | ⟨e, he⟩
+        · rw [h]; simp
+        · simp at he
+      by_cases ho : oversizeFirst input = true
+      · simp [specDialRes, nresPanic, nresErr, hwf, hcons ho]
+      · simp [specDialRes, nresPanic, nresErr, hwf, ho]
+    | perr e => simp [specDialRes, nresPanic, nresErr, hwf]
+    | panic w => exact absurd g1 (by simp [DGood])
+
+end C15
